@@ -46,6 +46,8 @@ def check(prog, rep, tier):
                       'types are rejected')
     rep.rule('R09.e', 'add-path identifiers: with add-path on, every decoded prefix carries the 4-octet identifier '
                       'that was read for it, for every identifier value (0 is legal); with add-path off none does')
+    rep.rule('R09.f', 'unsigned wire: no decoder reads a field with a signed struct code (a length or value with its top '
+                      'bit set would come out negative)')
     rep.assumptions += ['agreement on concrete values with a reference encoder is not enumerated']
     pa = prog.func(UPD + '.parse_attributes')
 
@@ -95,6 +97,10 @@ def check(prog, rep, tier):
     mask_rule(prog, rep, 'R09.b')
 
     addpath_decoders(prog, rep)
+
+    # ---------------------------------------------------------------- R09.f
+    common.report_signed_formats(prog, rep, 'R09.f', lambda fn: fn.module.name.startswith('yabgp.message')
+                                 and (fn.name.startswith(('parse', 'unpack'))), 100)
 
     # ---------------------------------------------------------------- R09.c
     table = dispatch_table(prog, pa)
